@@ -112,6 +112,10 @@ class Pred:
             return (("and" if n.attr == "And" else "or"),) + parts
         if op == "UnaryOp" and n.attr in ("Invert", "Not"):
             return ("not", self.formula(n.args[0]))
+        if op == "Scatter" and n.attr is None and n.args[2].op == "Const" and isinstance(n.args[2].attr, bool):
+            # m[c] = False  is  m & ~c ;  m[c] = True  is  m | c   (element-wise, c a mask over the same elements)
+            base, cnd = self.formula(n.args[0]), self.formula(n.args[1])
+            return ("and", base, ("not", cnd)) if n.args[2].attr is False else ("or", base, cnd)
         if op == "Call" and n.args[0].op == "Ext":
             q = n.args[0].attr
             if q in ("numpy.logical_and.reduce", "numpy.all") and len(n.args) == 2 and \
